@@ -30,7 +30,7 @@ def check_patch(diff_path, with_tests=True):
             tail = ot.strip().splitlines()[-1] if ot.strip() else ''
             res['tests'] = tail
             m = re.search(r'(\d+) failed, (\d+) passed', tail)
-            res['tests_ok'] = bool(m and m.group(1) == '1' and m.group(2) == '199')
+            res['tests_ok'] = bool(m and m.group(1) == '1' and int(m.group(2)) >= 170)
         alarms, detail = {}, {}
         for i in range(1, 21):
             pid = 'C%02d' % i
